@@ -145,7 +145,7 @@ def constants(ck, agg):
     return n
 
 
-def fragment_loop(ck, agg):
+def fragment_loop(ck, agg, rule="R11.6"):
     """R11.6: what _write_to_pipe emits for a long message"""
     P = ck.prog
     nn = net.NetNode(ck, "rf24_network", "RF24Network")
@@ -168,48 +168,48 @@ def fragment_loop(ck, agg):
             full = 0
             for out in outs:
                 if out.kind != "return":
-                    agg.add("R11.6", f, "sending does not raise", False, "%s raises %s" % (label, out.value.exc))
+                    agg.add(rule, f, "sending does not raise", False, "%s raises %s" % (label, out.value.exc))
                     continue
                 sends = [e for e in out.trace if e.kind == "radio-send" and e.data[0] == "send"]
                 # header type restored on every exit
                 fbh = out.state.heap[out.state.heap[node.ident].fields["frame_buf"].ident].fields["header"]
                 mt = out.state.heap[fbh.ident].fields.get("message_type")
-                agg.add("R11.6", f, "the caller's header shows its original type again on every exit (abort included)", value_matches(mt, mtype),
+                agg.add(rule, f, "the caller's header shows its original type again on every exit (abort included)", value_matches(mt, mtype),
                         "%s: after %d frame(s) the header type is left as %r" % (label, len(sends), mt))
                 if mlen <= M:
-                    agg.add("R11.6", f, "a message of at most 24 bytes is one frame", len(sends) <= 1, "%s: %d frames" % (label, len(sends)))
+                    agg.add(rule, f, "a message of at most 24 bytes is one frame", len(sends) <= 1, "%s: %d frames" % (label, len(sends)))
                     continue
-                agg.add("R11.6", f, "never more than ceil(n/24) frames", len(sends) <= total, "%s: %d frames" % (label, len(sends)))
+                agg.add(rule, f, "never more than ceil(n/24) frames", len(sends) <= total, "%s: %d frames" % (label, len(sends)))
                 pos = 0
                 for k, ev in enumerate(sends):
                     buf = ev.data[1]
                     tags = [p[0] for p in buf.parts] if isinstance(buf, Bytes) else []
                     ok = len(tags) == 2 and tags[0][0] == "pack" and tags[1][0] == "slice" and tags[1][1] == ("sym", "frame_buf.message")
-                    agg.add("R11.6", f, "each frame is header.pack() + a slice of the message", ok, "%s: frame %d parts %r" % (label, k, tags))
+                    agg.add(rule, f, "each frame is header.pack() + a slice of the message", ok, "%s: frame %d parts %r" % (label, k, tags))
                     if not ok:
                         break
                     args = tags[0][2]
                     typ, res, fid = const_of(norm(args[3])), const_of(norm(args[4])), args[2]
                     last = k == total - 1
                     want_t = T.CONSTANTS["MSG_FRAG_LAST"] if last else (T.CONSTANTS["MSG_FRAG_FIRST"] if k == 0 else T.CONSTANTS["MSG_FRAG_MORE"])
-                    agg.add("R11.6", f, "fragments are typed first / more / last", typ == want_t, "%s: fragment %d of %d has type %r, expected %d" % (label, k + 1, total, typ, want_t))
+                    agg.add(rule, f, "fragments are typed first / more / last", typ == want_t, "%s: fragment %d of %d has type %r, expected %d" % (label, k + 1, total, typ, want_t))
                     want_r = mtype if last else total - k
-                    agg.add("R11.6", f, "reserved counts down from the fragment total; the last fragment carries the original type", res == want_r,
+                    agg.add(rule, f, "reserved counts down from the fragment total; the last fragment carries the original type", res == want_r,
                             "%s: fragment %d of %d has reserved %r, expected %d" % (label, k + 1, total, res, want_r))
-                    agg.add("R11.6", f, "all fragments share the message's frame id", net.base_deps(fid) == {"frame_buf.header.frame_id"}, "%s: frame id of fragment %d is %r" % (label, k, fid))
+                    agg.add(rule, f, "all fragments share the message's frame id", net.base_deps(fid) == {"frame_buf.header.frame_id"}, "%s: frame id of fragment %d is %r" % (label, k, fid))
                     lo, hi = tags[1][2], tags[1][3]
                     hi = const_of(norm(Const(hi))) if isinstance(hi, int) else None
                     want_hi = min(mlen, pos + M)
-                    agg.add("R11.6", f, "fragment boundaries partition the message in 24-byte steps", lo == pos and hi == want_hi, "%s: fragment %d covers [%r:%r], expected [%d:%d]" % (label, k, lo, tags[1][3], pos, want_hi))
+                    agg.add(rule, f, "fragment boundaries partition the message in 24-byte steps", lo == pos and hi == want_hi, "%s: fragment %d covers [%r:%r], expected [%d:%d]" % (label, k, lo, tags[1][3], pos, want_hi))
                     ln = const_of(norm(buf.length()))
-                    agg.add("R11.6", f, "every on-air frame is at most 32 bytes", isinstance(ln, int) and ln <= 32, "%s: frame %d is %r bytes" % (label, k, ln))
+                    agg.add(rule, f, "every on-air frame is at most 32 bytes", isinstance(ln, int) and ln <= 32, "%s: frame %d is %r bytes" % (label, k, ln))
                     so = ev.data[2].get("send_only")
-                    agg.add("R11.6", f, "frames are sent with send_only (no ACK payload fetch)", so is not None and value_matches(so, True), "send_only=%r" % (so,))
+                    agg.add(rule, f, "frames are sent with send_only (no ACK payload fetch)", so is not None and value_matches(so, True), "send_only=%r" % (so,))
                     pos = want_hi
                 if len(sends) == total:
                     full += 1
             if mlen > M:
-                agg.add("R11.6", f, "a fully successful path emits exactly ceil(n/24) frames", full >= 1, "%s: no path emits all %d fragments" % (label, total))
+                agg.add(rule, f, "a fully successful path emits exactly ceil(n/24) frames", full >= 1, "%s: no path emits all %d fragments" % (label, total))
     return n
 
 
